@@ -130,6 +130,7 @@ def c08(tier, repo=None):
     log("  %d sequential histories sampled by TLC (StreamsSeq -simulate, %.0fs)" % (len(seqc), srun.wall_s))
     concc = streams.conc_cases(shapes, rnd, P["conc"])
     directed = streams.merge_close_cases(15 if tier == "quick" else 40)
+    directed += streams.wide_merge_cases(rnd, 5 if tier == "quick" else 15) + streams.precopy_cases(rnd, 3 if tier == "quick" else 8)
     cases = seqc + directed + concc
     case_by_id = {c["id"]: c for c in cases}
     lines, _, wall_go, _ = streams.run_schema(cases, repo=repo)
